@@ -67,6 +67,12 @@ Definition exported_methods : list string :=
 Definition ungated_helpers : list string :=
   ["SetProp"; "RemProp"; "GetProp"; "GetPropString"; "Have"; "RuleEnabled"; "Enabled"; "CheckRead"; "CheckWrite"].
 
+(** GetParents reveals the "!.parents" property fact: it is behind the read gate too
+    (repair of D56 in /repo). *)
+Lemma get_parents_guarded :
+  guarded "GetParents" ["state:GetProp"] ["gate:Enabled"; "gate:CheckRead"] = true.
+Proof. vm_compute. reflexivity. Qed.
+
 Definition writers_ok : bool :=
   forallb (fun m => mem_str m ungated_helpers ||
                     guarded m write_accesses ["gate:Enabled"; "gate:CheckWrite"]) exported_methods.
